@@ -196,6 +196,13 @@ def lock_typestate(ctx, rep, ci, fn: FuncInfo, ms: MaySuspend):
                 elif suspends and not held:
                     fresh = False
                 continue
+            if ev.kind == "raise" and isinstance(ev.node, ast.Await) and not held and ms.await_suspends(ev.node, fn):
+                # an await that ended with an exception (deadline of an enclosing timeout scope, cancellation) had suspended:
+                # while waiting - for the lock above all - other tasks ran and one of them may hold the lock now
+                inner_ = ev.node.value
+                # (the retry recursion releases in its own finally, nothing runs between that and the exception arriving here)
+                fresh = isinstance(inner_, ast.Call) and call_chain(inner_) == ("self", "send_request")
+                continue
             if ev.kind == "test" and isinstance(ev.node, ast.Call) and "locked" in t:
                 if ev.data is True and not held and fresh:
                     infeasible = True   # nobody else can have taken the lock without a suspension
@@ -214,6 +221,7 @@ def lock_typestate(ctx, rep, ci, fn: FuncInfo, ms: MaySuspend):
                     if not held:
                         if not guarded:
                             problems.append("releases a lock this activation does not hold (%s)" % fn.loc(ev.node))
+                            ctx._cache.setdefault("lock-unheld-release", {})[(fn.qualname, p.describe(40), i)] = (fn, p, i)
                         elif not fresh:
                             problems.append("releases a lock that another task may have acquired meanwhile (%s): a suspension separates it from the point the lock was free" % fn.loc(ev.node))
                     held = False
